@@ -4,7 +4,7 @@ import common as C
 import statelib
 from framework import Unit
 
-PROPS_FILES = ['C12', 'C12status', 'C12return', 'C12hints']
+PROPS_FILES = ['C12', 'C12status', 'C12return', 'C12hints', 'C12coproc', 'C12misc']
 IMPORTS = 'From ArmV Require Import Spec.Arch.\nFrom Gen Require Import enums core.'
 SPEC_IMPORTS = 'From ArmV Require Import Spec.Pseudocode Spec.Arch.'
 MODES = [16, 17, 18, 19, 22, 23, 26, 27, 31]
@@ -82,6 +82,48 @@ def coproc_cases(rng, tier):
                                     'model': (f'(match ArmV6_coproc_accepted {statelib.coq_config(cfgd, t)} {cp} {instr} '
                                               f'{statelib.coq_machine(st)} with Ok _ _ => [0] | Exc e _ => exn_enc e end)'),
                                     'spec': spec, 'label': f'coproc_cpacr{field}', 'nontrivial': True})
+    return out
+
+
+COPROC_CLASSES = [('CdpCdp2', 'cdp_cdp2', []), ('McrMcr2', 'mcr_mcr2', ['t']), ('McrrMcrr2', 'mcrr_mcrr2', ['t', 't2']),
+                  ('MrcMrc2', 'mrc_mrc2', ['t']), ('MrrcMrrc2', 'mrrc_mrrc2', ['t', 't2']),
+                  ('LdcLdc2Immediate', 'ldc_ldc2_immediate', ['n', 'add', 'imm32', 'index', 'wback']),
+                  ('LdcLdc2Literal', 'ldc_ldc2_literal', ['add', 'imm32', 'index']), ('StcStc2', 'stc_stc2', ['n', 'add', 'imm32', 'index', 'wback'])]
+
+
+def coproc_exec_cases(rng, tier):
+    """execute() of every coprocessor instruction class: UNDEFINED when NSACR/CPACR deny the access, else the not-implemented
+    outcome, the state untouched"""
+    t = statelib.load_index(C.GEN)['tables']
+    out = []
+    ix = {n: t['sys_names'].index(n) for n in ('cpsr', 'scr', 'nsacr', 'cpacr')}
+    per = 16 if tier == 'quick' else 800
+    for cls, module, extra in COPROC_CLASSES:
+        for _ in range(per):
+            cfgd = dict(statelib.DEFAULT_CFG)
+            cfgd['have_security_ext'] = rng.random() < 0.8
+            st = statelib.reset_state(t, cfg=cfgd, mem=[])
+            mode = rng.choice([16, 16, 19, 31] + ([22] if cfgd['have_security_ext'] else []))
+            cp = rng.choice([c for c in range(14) if c not in (10, 11)])
+            cpsr = (rng.getrandbits(4) << 28) | mode
+            scr = (rng.getrandbits(9) << 1) | rng.getrandbits(1)
+            nsacr = rng.getrandbits(14) if rng.random() < 0.6 else (rng.getrandbits(14) | (1 << cp))
+            cpacr = (rng.getrandbits(28) & ~(3 << (2 * cp))) | (rng.choice([0, 1, 3, 3]) << (2 * cp))
+            st['sys'][ix['cpsr']], st['sys'][ix['scr']], st['sys'][ix['nsacr']], st['sys'][ix['cpacr']] = cpsr, scr, nsacr, cpacr
+            st['R'] = [rng.getrandbits(32) for _ in range(34)]
+            st['opcode'], st['opcode_len'] = 0xE0000000 | rng.getrandbits(28), 32       # condition AL: the statements are for a passing condition
+            vals = {'t': rng.randrange(13), 't2': rng.randrange(13), 'n': rng.randrange(13), 'add': rng.getrandbits(1),
+                    'imm32': 4 * rng.getrandbits(8), 'index': rng.getrandbits(1), 'wback': rng.getrandbits(1)}
+            fields = [0, cp] + [vals[f] for f in extra]
+            hs = int(cfgd['have_security_ext'])
+            m = statelib.coq_machine(st)
+            secure = '(IsSecure (Build_sysctx %d 0 %d %d %d) %d)' % (hs, scr, st['sys'][t['sys_names'].index('sctlr')], nsacr, cpsr)
+            spec = (f'(if coproc_denied {"true" if hs else "false"} {secure} ({mode} =? 16) {nsacr} {cpacr} {cp} '
+                    f'then Exc EUndefined {m} else Exc ENotImpl {m})')
+            args = ' '.join(str(x) for x in fields)
+            out.append({'impl': {'kind': 'exec', 'state': st, 'module': module, 'cls': cls, 'fields': fields},
+                        'model': f'(enc_out enc_machine enc_unit ({cls}_execute {statelib.coq_config(cfgd, t)} {args} {m}))',
+                        'spec': f'(enc_out enc_machine enc_unit {spec})', 'label': 'coproc_exec_' + cls, 'nontrivial': True})
     return out
 
 
@@ -196,7 +238,8 @@ def hint_cases(rng, tier):
     per = 24 if tier == 'quick' else 1200
     ix = {n: t['sys_names'].index(n) for n in ('cpsr', 'scr', 'sctlr', 'nsacr', 'event_register', 'elr_hyp')}
     spsr_ix = [t['sys_names'].index(n) for n in ('spsr_svc', 'spsr_abt', 'spsr_und', 'spsr_mon', 'spsr_irq', 'spsr_fiq')]
-    for cls in ('Nop', 'Clrex', 'Yield', 'Sev', 'Setend', 'Wfe', 'Wfi', 'Eret', 'CpsArm', 'CpsThumb'):
+    for cls in ('Nop', 'Clrex', 'Yield', 'Sev', 'Setend', 'Wfe', 'Wfi', 'Eret', 'CpsArm', 'CpsThumb', 'Isb', 'PldImmediate', 'PldLiteral',
+                'PldRegister', 'EnterxLeavex'):
         for _ in range(per):
             cfgd = dict(statelib.DEFAULT_CFG)
             cfgd['have_security_ext'] = rng.random() < 0.8
@@ -221,8 +264,20 @@ def hint_cases(rng, tier):
             cf = True
             if cls in ('Nop', 'Clrex'):
                 fields, cf, spec = [0], cls == 'Clrex', f'(Ok tt {m})'
-            elif cls in ('Yield', 'Sev'):
+            elif cls in ('Yield', 'Sev', 'Isb'):
                 fields, cf, spec = [0], False, f'(Exc ENotImpl {m})'
+            elif cls == 'PldImmediate':
+                fields, spec = [0, rng.getrandbits(1), rng.getrandbits(1), rng.randrange(16), rng.getrandbits(12)], f'(Exc ENotImpl {m})'
+            elif cls == 'PldLiteral':
+                fields, spec = [0, rng.getrandbits(1), rng.getrandbits(12)], f'(Exc ENotImpl {m})'
+            elif cls == 'PldRegister':
+                fields = [0, rng.getrandbits(1), rng.getrandbits(1), rng.randrange(15), rng.randrange(15), ['enum', 'shift', 'SRType', 1], rng.randrange(4)]
+                spec = f'(Exc ENotImpl {m})'
+            elif cls == 'EnterxLeavex':
+                e = rng.getrandbits(1)
+                fields = [0, e]
+                spec = (f'(if {e} =? 0 then Ok tt (with_cpsr {m} (SelectInstrSet (cpsr_of {m}) InstrSet_THUMB)) else '
+                        f'if mode_of {m} =? 26 then Exc EUndefined {m} else Ok tt (with_cpsr {m} (SelectInstrSet (cpsr_of {m}) InstrSet_THUMBEE)))')
             elif cls == 'Setend':
                 e = rng.getrandbits(1)
                 fields, cf, spec = [0, e], False, f'(Ok tt (SETEND {m} {e}))'
@@ -241,7 +296,7 @@ def hint_cases(rng, tier):
                 en, dis = int(imod == 2), int(imod == 3)
                 fields = [0, a, i, f, en, dis, cm, md]
                 spec = f'(Ok tt (CPS (ctx_of {hs} 0 {m}) {m} {a} {i} {f} {en} {dis} {cm} {md}))'
-            args = ' '.join(str(x) for x in fields)
+            args = ' '.join(str(x[3]) if isinstance(x, list) else str(x) for x in fields)
             model = f'(enc_out enc_machine enc_unit ({cls}_execute {cfg + " " if cf else ""}{args} {m}))'
             out.append({'impl': {'kind': 'exec', 'state': st, 'module': snake(cls), 'cls': cls, 'fields': fields},
                         'model': model, 'spec': f'(enc_out enc_machine enc_unit {spec})', 'label': 'hint_' + cls, 'nontrivial': True})
@@ -262,6 +317,10 @@ def units():
                  ['registers.Registers.cpsr_write_by_instr'], cpsr_write_cases, IMPORTS, SPEC_IMPORTS),
             Unit('coproc_gate', ['C12_coproc_gate'], ['Proofs/CoprocProofs.v'], ['arm_v6.ArmV6.coproc_accepted'], coproc_cases,
                  IMPORTS, SPEC_IMPORTS + '\nFrom ArmV Require Import Spec.Coproc.'),
+            Unit('coproc_exec', ['C12_' + c for c, _, _ in COPROC_CLASSES], ['Proofs/CoprocExec.v', 'Proofs/CoprocProofs.v'],
+                 ['opcodes.abstract_opcodes.%s.%s.execute' % (mo, c) for c, mo, _ in COPROC_CLASSES], coproc_exec_cases,
+                 IMPORTS + '\nFrom Gen Require Import exec.',
+                 SPEC_IMPORTS + '\nFrom ArmV Require Import Lib.PyZ Lib.Monad Spec.Coproc.'),
             Unit('status', ['C12_MrsApplication', 'C12_MsrImmediateApplication', 'C12_MsrRegisterApplication', 'C12_MrsSystem',
                             'C12_spsr_write', 'C12_MsrImmediateSystem', 'C12_MsrRegisterSystem'], ['Proofs/StatusProofs.v'],
                  ['opcodes.abstract_opcodes.%s.%s.execute' % (snake(c), c) for c in
@@ -269,9 +328,11 @@ def units():
                  + ['registers.Registers.spsr_write_by_instr'], status_cases, IMPORTS + '\nFrom Gen Require Import exec.',
                  SPEC_IMPORTS + '\nFrom ArmV Require Import Spec.MachineView Spec.Exceptions Spec.BlockFamily Spec.StatusAccess.'),
             Unit('hints', ['C12_Nop', 'C12_Clrex', 'C12_Yield', 'C12_Sev', 'C12_Setend', 'C12_Wfe', 'C12_Wfi', 'C12_Eret', 'C12_CpsArm',
-                           'C12_CpsThumb'], ['Proofs/HintProofs.v'],
+                           'C12_CpsThumb', 'C12_Isb', 'C12_PldImmediate', 'C12_PldLiteral', 'C12_PldRegister', 'C12_EnterxLeavex'],
+                 ['Proofs/HintProofs.v', 'Proofs/MiscProofs2.v'],
                  ['opcodes.abstract_opcodes.%s.%s.execute' % (snake(c), c) for c in
-                  ('Nop', 'Clrex', 'Yield', 'Sev', 'Setend', 'Wfe', 'Wfi', 'Eret', 'CpsArm', 'CpsThumb')],
+                  ('Nop', 'Clrex', 'Yield', 'Sev', 'Setend', 'Wfe', 'Wfi', 'Eret', 'CpsArm', 'CpsThumb', 'Isb', 'PldImmediate', 'PldLiteral',
+                   'PldRegister', 'EnterxLeavex')],
                  hint_cases, IMPORTS + '\nFrom Gen Require Import exec.',
                  SPEC_IMPORTS + '\nFrom ArmV Require Import Lib.PyZ Lib.Monad Spec.MachineView Spec.Exceptions Spec.BlockFamily Spec.StatusAccess.'),
             Unit('exception_return', ['C12_SubsPcLrThumb', 'C12_SubsPcLrArm', 'C12_ret_ok_no_virt'], ['Proofs/ReturnProofs.v'],
